@@ -63,4 +63,70 @@ mod verif_kani {
             }
         }
     }
+
+    // group order of P-384 (FIPS 186-4 D.1.2; generated from the decimal form printed in the standard)
+    const N_P384: [u8; 48] = [0xff, 0xff, 0xff, 0xff, 0xff, 0xff, 0xff, 0xff, 0xff, 0xff, 0xff, 0xff, 0xff, 0xff, 0xff, 0xff, 0xff, 0xff, 0xff, 0xff, 0xff, 0xff, 0xff, 0xff, 0xc7, 0x63, 0x4d, 0x81, 0xf4, 0x37, 0x2d, 0xdf, 0x58, 0x1a, 0x0d, 0xb2, 0x48, 0xb0, 0xa7, 0x7a, 0xec, 0xec, 0x19, 0x6a, 0xcc, 0xc5, 0x29, 0x73];
+    /// as nist_sk_from_bytes_p256, for P-384 (complete over all byte strings of length 0..=98)
+    #[cfg(feature = "p384")]
+    #[kani::proof]
+    #[kani::unwind(100)]
+    #[kani::stub(zeroize::optimization_barrier, noop_barrier)]
+    fn nist_sk_from_bytes_p384() {
+        use super::p384::PrivateKey;
+        let len: usize = kani::any();
+        kani::assume(len <= 98);
+        let buf: [u8; 98] = kani::any();
+        let r = PrivateKey::from_bytes(&buf[..len]);
+        kani::cover!(len == 48 && r.is_ok());
+        kani::cover!(len == 48 && r.is_err());
+        if len != 48 {
+            assert!(matches!(r, Err(HpkeError::IncorrectInputLength(48, l)) if l == len));
+        } else {
+            let s = &buf[..48];
+            let in_range = !is_zero(s) && be_lt(s, &N_P384);
+            match r {
+                Ok(k) => {
+                    assert!(in_range);
+                    let mut out = [0u8; 48];
+                    k.write_exact(&mut out);
+                    let mut i = 0;
+                    while i < 48 { assert!(out[i] == s[i]); i += 1; }
+                }
+                Err(e) => assert!(!in_range && e == HpkeError::ValidationError),
+            }
+        }
+    }
+
+    // group order of P-521 (FIPS 186-4 D.1.2; generated from the decimal form printed in the standard)
+    const N_P521: [u8; 66] = [0x01, 0xff, 0xff, 0xff, 0xff, 0xff, 0xff, 0xff, 0xff, 0xff, 0xff, 0xff, 0xff, 0xff, 0xff, 0xff, 0xff, 0xff, 0xff, 0xff, 0xff, 0xff, 0xff, 0xff, 0xff, 0xff, 0xff, 0xff, 0xff, 0xff, 0xff, 0xff, 0xff, 0xfa, 0x51, 0x86, 0x87, 0x83, 0xbf, 0x2f, 0x96, 0x6b, 0x7f, 0xcc, 0x01, 0x48, 0xf7, 0x09, 0xa5, 0xd0, 0x3b, 0xb5, 0xc9, 0xb8, 0x89, 0x9c, 0x47, 0xae, 0xbb, 0x6f, 0xb7, 0x1e, 0x91, 0x38, 0x64, 0x09];
+    /// as nist_sk_from_bytes_p256, for P-521 (complete over all byte strings of length 0..=134)
+    #[cfg(feature = "p521")]
+    #[kani::proof]
+    #[kani::unwind(136)]
+    #[kani::stub(zeroize::optimization_barrier, noop_barrier)]
+    fn nist_sk_from_bytes_p521() {
+        use super::p521::PrivateKey;
+        let len: usize = kani::any();
+        kani::assume(len <= 134);
+        let buf: [u8; 134] = kani::any();
+        let r = PrivateKey::from_bytes(&buf[..len]);
+        kani::cover!(len == 66 && r.is_ok());
+        kani::cover!(len == 66 && r.is_err());
+        if len != 66 {
+            assert!(matches!(r, Err(HpkeError::IncorrectInputLength(66, l)) if l == len));
+        } else {
+            let s = &buf[..66];
+            let in_range = !is_zero(s) && be_lt(s, &N_P521);
+            match r {
+                Ok(k) => {
+                    assert!(in_range);
+                    let mut out = [0u8; 66];
+                    k.write_exact(&mut out);
+                    let mut i = 0;
+                    while i < 66 { assert!(out[i] == s[i]); i += 1; }
+                }
+                Err(e) => assert!(!in_range && e == HpkeError::ValidationError),
+            }
+        }
+    }
 }
